@@ -30,8 +30,11 @@ def install_codec_summaries(vc):
             return None
         if isinstance(value, SBytes) and coding.concrete() == "identity":
             return value
-        if v.branch(v.fresh_bool("codec_rejects")):
-            v.raise_(ValueError, "codec error")
+        known = SBool(_uf("codec_known", S, z3.BoolSort())(coding.t))
+        if coding.concrete() in ("utf-8", "utf8", "latin-1", "gzip", "br", "deflate", "zstd"):
+            v.ex.assume(known.t)
+        if not v.branch(known):
+            v.raise_(ValueError, "codec error")   # LookupError / unknown coding are reported as ValueError by encoding.encode
         if isinstance(value, SStr):
             return SBytes(_uf("text_encode", S, S, S)(value.t, coding.t))
         r = _uf("coding_encode", S, S, S)(value.t, coding.t)
@@ -80,8 +83,7 @@ def mk_entry(vc, req_version, resp_version, method, status, text, encoding, req_
 def s_version(vc):
     """the exporter writes request.http_version / response.http_version verbatim as httpVersion: the importer has to map
     each of mitmproxy's own version strings back to itself"""
-    rv = vc.case("request_version", MITM_VERSIONS)
-    sv = vc.case("response_version", MITM_VERSIONS)
+    rv, sv = vc.case("versions", [(v, v) for v in MITM_VERSIONS] + [("HTTP/1.1", "HTTP/3"), ("HTTP/3", "HTTP/2.0"), ("HTTP/2.0", "HTTP/1.1")])
     install_codec_summaries(vc)
     e = mk_entry(vc, rv, sv, "GET", vc.sym_int("status", lo=100, hi=999), "", None)
     out = vc.call(R2F, vc.lift(e) if vc.mode == "sym" else e)
@@ -91,3 +93,197 @@ def s_version(vc):
     f = out.result
     vc.ensure_kf("request.http_version", vc.eq(vc.getattr(f.request, "http_version"), rv), "KF-C41-1", rv == "HTTP/2.0")
     vc.ensure_kf("response.http_version", vc.eq(vc.getattr(f.response, "http_version"), sv), "KF-C41-1", sv == "HTTP/2.0")
+
+
+def _fields(vc, headers):
+    """the (name, value) byte pairs of a Headers object, in order"""
+    f = vc.getattr(headers, "fields")
+    items = f.items if vc.mode == "sym" else list(f)
+    return [((p.items if vc.mode == "sym" else p)[0], (p.items if vc.mode == "sym" else p)[1]) for p in items]
+
+
+def _ascii(vc, s):
+    if vc.mode == "native":
+        return all(ord(c) < 128 for c in s)
+    import z3
+    return SBool(z3.InRe(s.t, z3.Star(z3.Range(chr(0), chr(127)))))
+
+
+@scenario("fix_headers", functions=[FIX])
+def s_fix_headers(vc):
+    """HAR header lists ({"name","value"} objects as written by the exporter, or [name, value] pairs) become header fields
+    with the same names and values, in the same order, duplicates kept"""
+    notation = vc.case("notation", ["objects", "pairs"])
+    n = vc.case("count", [0, 1, 3])
+    names = [vc.sym_str(f"name{i}") for i in range(n)]
+    values = [vc.sym_str(f"value{i}") for i in range(n)]
+    for s in names + values:
+        vc.assume(_ascii(vc, s))
+    if n == 3 and vc.case("duplicate_name", [False, True]):
+        vc.assume(names[0] == names[2])
+    hs = [({"name": k, "value": v, "comment": ""} if notation == "objects" else [k, v]) for k, v in zip(names, values)]
+    out = vc.call(FIX, vc.lift(hs) if vc.mode == "sym" else hs)
+    vc.ensure("no_exception", out.ok)
+    if not out.ok:
+        return
+    got = _fields(vc, out.result)
+    vc.ensure("count", len(got) == n)
+    for i, (k, v) in enumerate(got[:n]):
+        vc.ensure(f"field[{i}].name", vc.eq(k, _as_bytes(vc, names[i])))
+        vc.ensure(f"field[{i}].value", vc.eq(v, _as_bytes(vc, values[i])))
+
+
+def _as_bytes(vc, s):
+    return s.encode() if vc.mode == "native" else SBytes(s.t)   # ASCII text: same code units
+
+
+@scenario("fix_headers.short_pair", functions=[FIX])
+def s_fix_headers_short(vc):
+    from mitmproxy import exceptions
+    name = vc.sym_str("name")
+    out = vc.call(FIX, vc.lift([[name]]) if vc.mode == "sym" else [[name]])
+    vc.ensure("rejected_as_options_error", (not out.ok) and out.raised_type() is exceptions.OptionsError)
+
+
+@scenario("format_multidict.then_fix_headers", functions=[SH + ".format_multidict", FIX])
+def s_headers_roundtrip(vc):
+    """export (format_multidict) then import (fix_headers) of a header block gives back the same fields, in order"""
+    n = vc.case("count", [0, 1, 3])
+    pairs = [(vc.sym_bytes(f"name{i}"), vc.sym_bytes(f"value{i}")) for i in range(n)]
+    for k, v in pairs:
+        vc.assume(_ascii_b(vc, k))
+        vc.assume(_ascii_b(vc, v))
+    if n == 3 and vc.case("duplicate_name", [False, True]):
+        vc.assume(pairs[0][0] == pairs[2][0])
+    h = vc.construct("mitmproxy.http:Headers", [tuple(p) for p in pairs] if vc.mode == "native" else vc.list([vc.lift((k, v)) for k, v in pairs]))
+    sh = vc.new(SH, flows=vc.list([]), filt=None)
+    o1 = vc.call(SH + ".format_multidict", sh, h)
+    vc.ensure("export.no_exception", o1.ok)
+    if not o1.ok:
+        return
+    lst = o1.result.items if vc.mode == "sym" else o1.result
+    vc.ensure("export.count", len(lst) == n)
+    o2 = vc.call(FIX, o1.result)
+    vc.ensure("import.no_exception", o2.ok)
+    if not o2.ok:
+        return
+    got = _fields(vc, o2.result)
+    vc.ensure("count", len(got) == n)
+    for i, (k, v) in enumerate(got[:n]):
+        vc.ensure(f"field[{i}].name", vc.eq(k, pairs[i][0]))
+        vc.ensure(f"field[{i}].value", vc.eq(v, pairs[i][1]))
+
+
+def _ascii_b(vc, b):
+    if vc.mode == "native":
+        return all(c < 128 for c in b)
+    import z3
+    return SBool(z3.InRe(b.t, z3.Star(z3.Range(chr(0), chr(127)))))
+
+
+def _b64_text(vc, content):
+    """what the exporter writes for a binary body: base64.b64encode(content).decode()"""
+    if vc.mode == "native":
+        import base64
+        return base64.b64encode(content).decode()
+    from pyvc import libx_addons as A
+    for ax in A.b64_axioms(content.t):
+        vc.assume(SBool(ax))
+    return SStr(A.b64encode_t(content.t))
+
+
+@scenario("request_to_flow.body.base64", functions=[R2F])
+def s_body_b64(vc):
+    """a body exported as base64 (binary content) is imported as exactly those bytes"""
+    install_codec_summaries(vc)
+    content = vc.sym_bytes("content")
+    ct = vc.sym_str("content_type")
+    vc.assume(_ascii(vc, ct))
+    e = mk_entry(vc, "HTTP/1.1", "HTTP/1.1", "GET", 200, _b64_text(vc, content), "base64", resp_headers=[("content-type", ct)])
+    out = vc.call(R2F, vc.lift(e) if vc.mode == "sym" else e)
+    vc.ensure("no_exception", out.ok)
+    if not out.ok:
+        return
+    r = out.result.response
+    vc.ensure("decoded_body", vc.eq(vc.getattr(r, "content"), content))
+    vc.ensure("raw_body", vc.eq(vc.getattr(r, "raw_content"), content))
+    vc.ensure("status", vc.eq(vc.getattr(r, "status_code"), 200))
+
+
+@scenario("request_to_flow.body.text", functions=[R2F])
+def s_body_text(vc):
+    """a body exported as text is re-encoded with the charset of the Content-Type header; an unknown charset falls back to
+    UTF-8 (surrogateescape) instead of failing the import"""
+    import z3
+    install_codec_summaries(vc)
+    text = vc.sym_str("text")
+    ct = vc.sym_str("content_type")
+    vc.assume(_ascii(vc, ct))
+    e = mk_entry(vc, "HTTP/1.1", "HTTP/1.1", "GET", 200, text, None, resp_headers=[("content-type", ct)])
+    out = vc.call(R2F, vc.lift(e) if vc.mode == "sym" else e)
+    vc.ensure("no_exception", out.ok)
+    if not out.ok:
+        return
+    body = vc.getattr(out.result.response, "raw_content")
+    if vc.mode == "native":
+        from mitmproxy.net import encoding as E
+        from mitmproxy.net.http import headers as H
+        charset = H.infer_content_encoding(ct)
+        try:
+            expected, known = E.encode(text, charset), True
+        except ValueError:
+            expected, known = text.encode("utf-8", "surrogateescape"), False
+        if known:
+            vc.ensure("charset_from_content_type", body == expected)
+        else:
+            vc.ensure("fallback_utf8", body == expected)
+        return
+    S = z3.StringSort()
+    charset = _uf("infer_charset", S, S)(ct.t)
+    known = SBool(_uf("codec_known", S, z3.BoolSort())(charset))
+    if vc.branch(known):
+        vc.ensure("charset_from_content_type", vc.eq(body, SBytes(_uf("text_encode", S, S, S)(text.t, charset))))
+    else:
+        vc.ensure("fallback_utf8", vc.eq(body, SBytes(_uf("encode_utf-8_surrogateescape", S, S)(text.t))))
+
+
+@scenario("request_to_flow.request_body", functions=[R2F])
+def s_request_body(vc):
+    """postData.text becomes the request body (re-encoded as text); entries without postData have an empty body; the method
+    and the request header fields are taken over"""
+    import z3
+    install_codec_summaries(vc)
+    method = vc.case("method", ["POST", "PUT", "PATCH", "GET", "DELETE"])
+    has_post = method in ("POST", "PUT", "PATCH")
+    text = vc.sym_str("post_text")
+    hv = vc.sym_str("x_value")
+    vc.assume(_ascii(vc, hv))
+    vc.assume(_ascii(vc, text))
+    if vc.mode == "sym":   # the default charset for a body without Content-Type (latin-1) is a codec Python knows
+        S = z3.StringSort()
+        vc.assume(SBool(_uf("codec_known", S, z3.BoolSort())(_uf("infer_charset", S, S)(z3.StringVal("")))))
+    e = mk_entry(vc, "HTTP/1.1", "HTTP/1.1", method, 200, "", None, req_headers=[("x-a", hv), ("x-a", "2")], post=text if has_post else None)
+    out = vc.call(R2F, vc.lift(e) if vc.mode == "sym" else e)
+    vc.ensure("no_exception", out.ok)
+    if not out.ok:
+        return
+    rq = out.result.request
+    vc.ensure("method", vc.eq(vc.getattr(rq, "method"), method))
+    got = _fields(vc, vc.getattr(rq, "headers"))
+    vc.ensure("headers.first_two_in_order", len(got) >= 2 and _and2(vc.eq(got[0][0], b"x-a"), vc.eq(got[0][1], _as_bytes(vc, hv)), vc.eq(got[1][0], b"x-a"), vc.eq(got[1][1], b"2")))
+    vc.ensure("headers.only_content_length_added", len(got) == 2 or (len(got) == 3 and vc.eq(got[2][0], b"content-length")))
+    body = vc.getattr(rq, "raw_content")
+    if not has_post:
+        # no postData: the body is the empty text (encoded with the default charset; natively that is b"")
+        if vc.mode == "native":
+            vc.ensure("no_body", body == b"")
+        else:
+            S = z3.StringSort()
+            vc.ensure("no_body", vc.eq(body, SBytes(_uf("text_encode", S, S, S)(z3.StringVal(""), _uf("infer_charset", S, S)(z3.StringVal(""))))))
+
+
+def _and2(*conds):
+    if any(c is False for c in conds):
+        return False
+    rest = [c for c in conds if c is not True]
+    return And(*rest) if rest else True
